@@ -87,10 +87,39 @@ Print Assumptions C12_images_packed_known.
 (* 1d. the same for image pairs (matches), with or without the known-images filter *)
 Theorem C12_pairs_packed : forall norm dir members rest, packs norm members dir ->
   forall ext sep known p,
-  In p (match_pairs norm ext sep true known (packed_store members rest)) <->
-  In p (match_pairs norm ext sep false known (dir_store dir)).
+  In p (match_pairs norm ext sep true known None (packed_store members rest)) <->
+  In p (match_pairs norm ext sep false known None (dir_store dir)).
 Proof. intros norm dir members rest [W P]. exact (packed_pairs norm dir members P rest). Qed.
 Print Assumptions C12_pairs_packed.
+
+(* 1d'. a load restricted by a pairs file (lines in any order of the two names, repeated, naming strangers): the file
+        denotes a set of unordered pairs; both storages load exactly the stored pairs that are in (smaller, larger) name
+        order and belong to that set.  Hypotheses: every stored matches file is named canonically for the pair it denotes;
+        the names in the pairs file give proper, normalised file names. *)
+Theorem C12_pairs_packed_pairsfile : forall norm dir members rest, packs norm members dir ->
+  forall ext sep known lines p,
+  (forall n q, In n (keys dir) -> has_ext ext n = true -> In q (pair_of ext sep n) -> norm (pair_fname ext sep q) = n) ->
+  (forall q, In q (map ordered lines) ->
+     norm (pair_fname ext sep q) = pair_fname ext sep q /\ has_ext ext (pair_fname ext sep q) = true /\
+     pair_of ext sep (pair_fname ext sep q) = [q]) ->
+  In p (match_pairs norm ext sep true known (Some lines) (packed_store members rest)) <->
+  In p (match_pairs norm ext sep false known (Some lines) (dir_store dir)).
+Proof.
+  intros norm dir members rest [W P] ext sep known lines p.
+  exact (packed_pairs_pairsfile norm dir members P rest ext sep known lines p).
+Qed.
+Print Assumptions C12_pairs_packed_pairsfile.
+
+(* the order of the two names on a line, and repeating a line, do not matter *)
+Theorem C12_pairsfile_unordered : forall a b, ordered (a, b) = ordered (b, a).
+Proof.
+  intros a b. unfold ordered, sltb, sleb. cbn [fst snd].
+  destruct (lleb (bytes_of b) (bytes_of a)) eqn:E1, (lleb (bytes_of a) (bytes_of b)) eqn:E2; cbn; try reflexivity.
+  - assert (bytes_of a = bytes_of b) by (apply lleb_antisym; assumption).
+    assert (a = b) by (rewrite <- (of_bytes_bytes_of a), <- (of_bytes_bytes_of b); congruence). subst. reflexivity.
+  - destruct (lleb_total (bytes_of a) (bytes_of b)); congruence.
+Qed.
+Print Assumptions C12_pairsfile_unordered.
 
 (* 1e. which one wins (as the code does): archive + handlers => the archive, loose files are not looked at;
        no handlers, or no archive => the loose files *)
@@ -307,9 +336,15 @@ Example C12_example :
                  ("dup/s.jpg.kpt", hdr0, PSym "a.jpg.kpt"); ("a.jpg.kpt", hdr0, PBytes "BBBB")]
     = [("a.jpg.kpt", "BBBB"); ("dup/b.jpg.kpt", "AAAA"); ("dup/s.jpg.kpt", "BBBB")] /\
   images ex_norm ".kpt" true (Some []) (packed_store ex_members []) = [] /\
-  match_pairs ex_norm ".matches" ".overlapping" true (Some ["a.jpg"; "b/c.jpg"])
+  match_pairs ex_norm ".matches" ".overlapping" true (Some ["a.jpg"; "b/c.jpg"]) None
     (packed_store [("a.jpg.overlapping/b/c.jpg.matches", "m"); ("a.jpg.overlapping/zz.jpg.matches", "m")] [])
-    = [("a.jpg", "b/c.jpg")].
+    = [("a.jpg", "b/c.jpg")] /\
+  match_pairs ex_norm ".matches" ".overlapping" true None (Some [("zz.jpg", "a.jpg"); ("q.jpg", "a.jpg"); ("zz.jpg", "a.jpg")])
+    (packed_store [("a.jpg.overlapping/b/c.jpg.matches", "m"); ("a.jpg.overlapping/zz.jpg.matches", "m")] [])
+    = [("a.jpg", "zz.jpg")] /\
+  match_pairs ex_norm ".matches" ".overlapping" false None (Some [("zz.jpg", "a.jpg"); ("q.jpg", "a.jpg"); ("zz.jpg", "a.jpg")])
+    (dir_store [("a.jpg.overlapping/b/c.jpg.matches", "m"); ("a.jpg.overlapping/zz.jpg.matches", "m")])
+    = [("a.jpg", "zz.jpg"); ("a.jpg", "zz.jpg")].
 Proof.
   split.
   - split.
